@@ -7,7 +7,7 @@
    sentinel, factor or format argument breaks them. *)
 From Coq Require Import ZArith Bool String Lia.
 From Flocq Require Import Core IEEE754.BinarySingleNaN IEEE754.Binary IEEE754.Bits.
-From FitV Require Import Model.LatLng Gen.C17Funcs.
+From FitV Require Import Model.LatLng Model.FitTime Gen.C17Funcs.
 Local Open Scope Z_scope.
 
 Lemma lat_min_val : lat_min = -1073741824. Proof. reflexivity. Qed.
@@ -89,6 +89,33 @@ Proof. intros H. unfold go_Latitude_String, lat_string. rewrite ?(go_Latitude_De
 Lemma go_Longitude_String_is s : is_i32 s -> go_Longitude_String s = lng_string (mk_lng s).
 Proof. intros H. unfold go_Longitude_String, lng_string. rewrite ?(go_Longitude_Degrees_is s H), ?go_format_float_lib. decide_feq. Qed.
 
+(* ---- time.go: IsBaseTime, decodeDateTime, encodeTime on every argument.  The package variable timeBase
+   (time.Date on constants) is evaluated to the model's time_base; operands of the wrapped int64 product may come in
+   either order ---- *)
+Ltac time_eq :=
+  intros; repeat autounfold with go_src;
+  repeat match goal with
+  | |- context [go_time_date ?y ?m ?d ?h ?mi ?s ?ns ?l] =>
+      let v := eval vm_compute in (go_time_date y m d h mi s ns l) in
+      change (go_time_date y m d h mi s ns l) with v
+  end;
+  cbv beta zeta delta [is_base_time decode_date_time encode_time time_base second];
+  first [ reflexivity | repeat (f_equal; try lia) ].
+
+Lemma go_timeBase_is : go_var_timeBase = time_base.
+Proof. vm_compute. reflexivity. Qed.
+Lemma go_IsBaseTime_is t : go_IsBaseTime t = is_base_time t.
+Proof. time_eq. Qed.
+Lemma go_decodeDateTime_is dt : go_decodeDateTime dt = decode_date_time dt.
+Proof. time_eq. Qed.
+Lemma go_encodeTime_is t : go_encodeTime t = encode_time t.
+Proof. time_eq. Qed.
+
+Lemma time_translated :
+  go_var_timeBase = time_base /\ (forall t, go_IsBaseTime t = is_base_time t) /\
+  (forall dt, go_decodeDateTime dt = decode_date_time dt) /\ (forall t, go_encodeTime t = encode_time t).
+Proof. exact (conj go_timeBase_is (conj go_IsBaseTime_is (conj go_decodeDateTime_is go_encodeTime_is))). Qed.
+
 Lemma latlng_translated :
   (forall s, is_i32 s -> go_NewLatitude s = lat_semicircles (new_latitude s) /\
                          go_Latitude_Semicircles s = lat_semis (mk_lat s) /\
@@ -105,9 +132,15 @@ Lemma latlng_translated :
   go_NewLatitudeInvalid = lat_semicircles new_latitude_invalid /\
   go_NewLongitudeInvalid = lng_semicircles new_longitude_invalid.
 Proof.
-  repeat split; intros;
-    auto using go_NewLatitude_is, go_Latitude_Semicircles_is, go_Latitude_Invalid_is, go_Latitude_Degrees_is,
-      go_Latitude_String_is, go_NewLongitude_is, go_Longitude_Semicircles_is, go_Longitude_Invalid_is,
-      go_Longitude_Degrees_is, go_Longitude_String_is, go_NewLatitudeDegrees_is, go_NewLongitudeDegrees_is,
-      go_NewLatitudeInvalid_is, go_NewLongitudeInvalid_is.
+  (* no [repeat split]: [split] also applies to an equation (eq has one constructor) and then asks the kernel to
+     convert its two sides *)
+  split; [|split; [|split]].
+  - intros s H.
+    exact (conj (go_NewLatitude_is s H) (conj (go_Latitude_Semicircles_is s H) (conj (go_Latitude_Invalid_is s H)
+          (conj (go_Latitude_Degrees_is s H) (conj (go_Latitude_String_is s H) (conj (go_NewLongitude_is s H)
+          (conj (go_Longitude_Semicircles_is s H) (conj (go_Longitude_Invalid_is s H)
+          (conj (go_Longitude_Degrees_is s H) (go_Longitude_String_is s H)))))))))).
+  - intros d. exact (conj (go_NewLatitudeDegrees_is d) (go_NewLongitudeDegrees_is d)).
+  - exact go_NewLatitudeInvalid_is.
+  - exact go_NewLongitudeInvalid_is.
 Qed.
